@@ -441,6 +441,34 @@ class C07(ServerProp):
                     h.drain(c)
             h.finish()
             out.append(self.mk(h, 0, {'kind': 'close-in-flight+reconnect'}))
+        # the same at capacity: ten entries, one of them a client that went away with a request in flight; another
+        # client leaves, a new one takes the freed descriptor number, the old request is answered late
+        for _ in range(40 if tier == 'quick' else 1500):
+            h = Hist(rng)
+            cs = [h.connect() for _ in range(10)]
+            h.ops.append([11, 14])
+            a = rng.choice(cs)
+            h.request(a, pipelined=rng.choice([1, 2]), poll_between=False)
+            h.ops.append([11, 6])
+            h.ops.append([rng.choice([2, 2, 3]), a])
+            h.alive.remove(a)
+            h.ops.append([11, 6])
+            if rng.random() < 0.7:
+                b = rng.choice([c for c in cs if c != a])
+                h.ops.append([2, b])
+                h.alive.remove(b)
+                h.ops.append([11, 6])
+            n = h.connect()
+            h.ops.append([11, 6])
+            if rng.random() < 0.6:
+                h.request(n, poll_between=False)
+                h.ops.append([11, 6])
+            for _ in range(rng.randint(1, 4)):
+                h.ops.append([12, rng.randint(0, 3)])
+                h.ops.append([11, 4])
+            h.drain(n)
+            h.finish()
+            out.append(self.mk(h, 0, {'kind': 'capacity-close-in-flight+reconnect'}))
         # exhaustive short histories over a small alphabet
         req0 = b'GET /c0/r0 HTTP/1.1\r\n\r\n'
         req1 = b'PUT /c1/r0 HTTP/1.1\r\nContent-Length: 2\r\n\r\nhi'
